@@ -803,6 +803,10 @@ def main():
                 knowns.append((q, f["label"], k, cls))
         elif cls.startswith("reproduced"):
             violations.append((q, labels, rpath, cls))
+        elif only_unwind and cls == "sanitizer-fault-not-the-assertion":
+            # the code ran past the loop bound derived from it AND the native run of the same input
+            # faults under ASan/UBSan: a real fault of the code, not a harness bound problem
+            violations.append((q, labels, rpath, "loop bound exceeded + native sanitizer fault"))
         elif only_unwind:
             broken.append((q, "loop bound exceeded (unwinding assertion) and native run terminates: "
                            "harness bound no longer matches the code", rpath))
